@@ -375,6 +375,9 @@ def prog_jobs(tier, rundir, cfg=None):
 def c10_jobs(tier, seed, rundir):
     jobs = prog_jobs(tier, rundir)
     q = tier == 'quick'
+    # the block-recursive factorisation (only reachable with the big shapes) with junk-filled P and Q in two environments
+    for env in (0, 3):
+        jobs.append(TraceJob(SMALL, 'ple', shards=5 if q else 16, args=['--env', env, '--extra', 'onlybig'], label='ple-big@%s#env%d' % (SMALL, env), timeout=3400, xmx='6g'))
     for fam, n in C10_FAMS:
         for env in (0, 3, 7):
             jobs.append(TraceJob(SMALL, fam, shards=1 if q else 4, args=['--cases', n if q else n * 8, '--env', env, '--extra', 'nobig,nosweep'],
